@@ -180,10 +180,21 @@ pub fn replay(args: &[String]) {
     silence_panics();
     let path = &args[0];
     let seed = arg_u64(args, "--seed", 1);
+    let recs = read_ndjson(path);
+    if let Some(f) = arg_value(args, "--pre-ops-file") {
+        // registration history: the same names registered first with another configuration, every sentence parsed once, then replaced
+        register_ops_file(&f);
+        for (idx, r) in recs.iter().enumerate() {
+            let toks = r["toks"].as_array().unwrap();
+            if realizable(toks) {
+                let case = concretize(toks, seed, idx as u64, &|_| " ".to_string());
+                let _ = parse_observe(&case.text);
+            }
+        }
+    }
     if let Some(f) = arg_value(args, "--ops-file") {
         register_ops_file(&f);
     }
-    let recs = read_ndjson(path);
     let emit_ast = args.iter().any(|a| a == "--emit-ast");
     let mut out = Out::new(None);
     let (mut n, mut bad, mut skipped, mut unspec) = (0u64, 0u64, 0u64, 0u64);
@@ -408,6 +419,32 @@ pub fn corrupt_chars(rng: &mut impl Rng, text: &str) -> String {
                 cs.insert(q + k, *c);
             }
             return cs.into_iter().collect();
+        }
+    }
+    // now and then a lexically invalid token right behind a closing delimiter (its error may not be lost with the closer)
+    if rng.gen_bool(0.1) {
+        let spots: Vec<usize> = cs.iter().enumerate().filter(|(_, c)| matches!(**c, ']' | ')' | '}')).map(|(i, _)| i).collect();
+        if !spots.is_empty() {
+            let at = spots[rng.gen_range(0..spots.len())] + 1;
+            let ins: Vec<char> = [" 1e5", "'abc", " 2e", "\"x", " 1.2.3"][rng.gen_range(0..5)].chars().collect();
+            for (k, c) in ins.iter().enumerate() {
+                cs.insert(at + k, *c);
+            }
+            return cs.into_iter().collect();
+        }
+    }
+    // now and then a word operator glued to what follows (then it is a name, not an operator: the whole run up to the next blank counts)
+    if rng.gen_bool(0.1) {
+        let text: String = cs.iter().collect();
+        for w in [" in ", " beginWith ", " endWith ", " not in "] {
+            if let Some(p) = text.find(w) {
+                let after = text[p + w.len()..].chars().next();
+                if matches!(after, Some('\'') | Some('"') | Some('-') | Some('!') | Some('[') | Some('(')) || rng.gen_bool(0.3) {
+                    let mut t = text.clone();
+                    t.remove(p + w.len() - 1);
+                    return t;
+                }
+            }
         }
     }
     // now and then a blank the engine does NOT treat as white space (NBSP, VT, FF, EM SPACE) in place of an ordinary one, and a surplus closer
